@@ -20,10 +20,10 @@ DOCS = [
     ("nonascii", '<a title="é" href="http://é.fr/', '">é</a>'),
 ]
 BASES = ["http://x.fr/a/b.html", "https://www.y.com", "HTTP://X.FR:80/a/../c?q#f"]
-HREF_PREFIX = ["", "/", "../", "//z.org/", "http://x.fr/a/", "#", "javascript:", "mailto:", "HTTP://X.FR/", "http://nope.zzzz/", "?"]
+HREF_PREFIX = ["", "/", "../", "//z.org/", "http://x.fr/a/", "#", "javascript:", "mailto:", "HTTP://X.FR/", "http://nope.zzzz/", "?", "/c?q", "http://x.fr/c?q#"]
 BOUNDS = {
-    "quick": "urls_from_html: 14 document skeletons (three quoting styles, upper-case names, holes in tag-syntax positions, unclosed tag, script blocks with holes in the tag names, entity, non-ASCII) x hole strings of length 0..2 over all code points, as str and as its UTF-8 bytes; "
-             "links_from_html: 3 bases x 11 href prefixes x href holes of length 0..2 x canonicalize / unique / strip_fragment",
+    "quick": "urls_from_html: 5 one-anchor documents (exact expected list) + 14 document skeletons (three quoting styles, upper-case names, holes in tag-syntax positions, unclosed tag, script blocks with holes in the tag names, entity, non-ASCII) x hole strings of length 0..2 over all code points, as str and as its UTF-8 bytes; "
+             "links_from_html: 3 bases x 13 href prefixes x href holes of length 0..2 x canonicalize / unique / strip_fragment",
     "thorough": "holes of length 0..3",
 }
 STUBS = ["see C01; html.unescape interpreted from the stdlib source (entity table lookups as disjunctions)", "UTF-8 encode / decode models"]
@@ -36,6 +36,15 @@ def extract(st, skel, n):
     doc = cat(pre, sym_str(st, "s", n), post)
     run_prop(st, "str_and_bytes_agree", S.str_and_bytes_agree, doc)
     run_prop(st, "hrefs_are_stripped", S.hrefs_are_stripped, doc)
+
+
+ONE = [('<p><a href="', '">x</a></p>', '"'), ("<a class=c href='", "'>x</a>", "'"), ("<a href=", " id=i>x</a>", ""),
+       ('<A CLASS="nav" HREF="', '">X</A>', '"'), ("<div><A Href='", "' ID=i>x</A></div>", "'")]
+
+
+def one(st, i, n):
+    pre, post, q = ONE[i]
+    run_prop(st, "href_is_extracted", S.href_is_extracted, pre, sym_str(st, "s", n), post, q)
 
 
 def links(st, base, pref, n, canon, unique, sf):
@@ -55,6 +64,15 @@ def items(tier):
             if n >= 2:
                 it["defer_depth"] = 8
             out.append(it)
+    for i in range(len(ONE)):
+        for n in range(0, nmax + 1):
+            out.append({"fn": "one", "params": {"i": i, "n": n}, "name": "one anchor %d n=%d" % (i, n), "weight": 8 ** n})
+    # self links of a base that carries a fragment, every option combination
+    for pref in (11, 12):
+        for n in range(0, 2):
+            for bits in range(8):
+                out.append({"fn": "links", "params": {"base": 2, "pref": pref, "n": n, "canon": bool(bits & 1), "unique": bool(bits & 2), "sf": bool(bits & 4)},
+                            "name": "self-link %r n=%d opts=%d" % (HREF_PREFIX[pref], n, bits), "weight": 10 ** n})
     k = 0
     for b in range(len(BASES)):
         for p in range(len(HREF_PREFIX)):
